@@ -12,7 +12,7 @@ class Style:
     which is deterministic for a given (seed, counter)."""
 
     def __init__(self, variant=0, rng=None, definer='=', sep='\n', comments=False,
-                 ignore_kw='ignore', bare_start=False, parens=False):
+                 ignore_kw='ignore', bare_start=False, parens=False, break_ops=False, flat=False):
         self.variant = variant      # 0 = operator forms, 1 = constructor forms, 2 = per-node random
         self.rng = rng
         self.definer = definer      # '=', ':', '=>' ('mix' = per-definition random)
@@ -21,6 +21,17 @@ class Style:
         self.ignore_kw = ignore_kw
         self.bare_start = bare_start
         self.parens = parens        # redundant parentheses
+        self.break_ops = break_ops  # line breaks around binary operators
+        self.flat = flat            # no parentheses at all around binary operator forms (C19 chains)
+
+    def op(self, o):
+        if self.break_ops and self.rng is not None:
+            r = self.rng.random()
+            if r < 0.3:
+                return '\n    ' + o + ' '
+            if r < 0.6:
+                return ' ' + o + '\n    '
+        return ' ' + o + ' '
 
     def ctor(self):
         if self.variant == 0:
@@ -196,15 +207,15 @@ def _expr(e, st, bm):
     if k == 'left':
         if st.ctor():
             return 'Left(%s, %s)' % (X(e[1]), X(e[2]))
-        return '(%s << %s)' % (X(e[1]), X(e[2]))
+        return '(%s%s%s)' % (X(e[1]), st.op('<<'), X(e[2]))
     if k == 'right':
         if st.ctor():
             return 'Right(%s, %s)' % (X(e[1]), X(e[2]))
-        return '(%s >> %s)' % (X(e[1]), X(e[2]))
+        return '(%s%s%s)' % (X(e[1]), st.op('>>'), X(e[2]))
     if k == 'choice':
         if st.ctor():
             return 'Choice(' + ', '.join(X(x) for x in e[1]) + ')'
-        return '(' + ' | '.join(X(x) for x in e[1]) + ')'
+        return '(' + st.op('|').join(X(x) for x in e[1]) + ')'
     if k == 'opt':
         if st.ctor():
             return 'Opt(%s)' % X(e[1])
@@ -234,7 +245,7 @@ def _expr(e, st, bm):
         d, t, em, rq = e[3]
         a, b = X(e[1]), X(e[2])
         if d and em and not rq and not st.ctor():
-            return '(%s %s %s)' % (a, '/?' if t else '//', b)
+            return '(%s%s%s)' % (a, st.op('/?' if t else '//'), b)
         kw = []
         if not d:
             kw.append('discard_separators=False')
